@@ -51,6 +51,9 @@ type Frame struct {
 	visits  map[int]int
 	runningDefers bool
 	retVals []Value // saved results while running defers
+	scratch Value
+	contIP  int
+	contPhase int
 }
 
 type Goroutine struct {
